@@ -110,8 +110,74 @@ class CallGraph:
                 for k, v in types.items() if None not in v}
 
     # ------------------------------------------------------------- analysis
-    def _is_external_expr(self, f, e):
+    def external_locals(self, f):
+        """Locals of f that are only ever bound to results of external
+        (numpy / stdlib) calls, literals or arithmetic: certainly not
+        project objects."""
+        cache = self.__dict__.setdefault("_extloc", {})
+        if id(f) in cache:
+            return cache[id(f)]
+        binds = {}
+        params = set(f.params) | set(f.kwonly)
+        for n in ast.walk(f.node):
+            tgts = []
+            val = None
+            if isinstance(n, ast.Assign):
+                tgts, val = n.targets, n.value
+            elif isinstance(n, ast.AugAssign):
+                tgts, val = [n.target], n.value
+            elif isinstance(n, (ast.For, ast.comprehension)):
+                for x in ast.walk(n.target):
+                    if isinstance(x, ast.Name):
+                        binds.setdefault(x.id, []).append(False)
+                continue
+            elif isinstance(n, ast.withitem) and n.optional_vars is not None:
+                for x in ast.walk(n.optional_vars):
+                    if isinstance(x, ast.Name):
+                        binds.setdefault(x.id, []).append(False)
+                continue
+            for t in tgts:
+                if isinstance(t, ast.Name):
+                    binds.setdefault(t.id, []).append(
+                        self._ext_value(f, val))
+                elif isinstance(t, (ast.Tuple, ast.List)):
+                    for x in ast.walk(t):
+                        if isinstance(x, ast.Name):
+                            binds.setdefault(x.id, []).append(
+                                self._ext_value(f, val))
+        out = {k for k, v in binds.items() if v and all(v)
+               and k not in params}
+        cache[id(f)] = out
+        return out
+
+    def _ext_value(self, f, v):
+        if isinstance(v, (ast.Constant, ast.List, ast.Dict, ast.Set,
+                          ast.ListComp, ast.DictComp, ast.JoinedStr,
+                          ast.Compare)):
+            return True
+        if isinstance(v, ast.Call):
+            ent = self.p.resolve_expr(f.module, v.func)
+            if isinstance(ent, External):
+                return True
+            if isinstance(v.func, ast.Attribute):
+                return self._is_external_expr(f, v.func.value, _deep=True)
+            return False
+        if isinstance(v, ast.BinOp):
+            return self._ext_value(f, v.left) or self._ext_value(f, v.right)
+        if isinstance(v, ast.UnaryOp):
+            return self._ext_value(f, v.operand)
+        if isinstance(v, (ast.Subscript, ast.Attribute)):
+            return self._is_external_expr(f, v, _deep=True)
+        return False
+
+    def _is_external_expr(self, f, e, _deep=False):
         """Receiver certainly a non-project value (numpy array etc.)."""
+        if not _deep:
+            base = e
+            while isinstance(base, (ast.Attribute, ast.Subscript)):
+                base = base.value
+            if isinstance(base, ast.Name) and base.id in self.external_locals(f):
+                return True
         while isinstance(e, (ast.Attribute, ast.Subscript, ast.Call)):
             if isinstance(e, ast.Call):
                 ent = self.p.resolve_expr(f.module, e.func)
